@@ -47,6 +47,7 @@ FAMILIES = {
         "figures": ("ParamsFig", "FigMoves", 3, "NoTr", "PageAndFigure", "First1", ["SkipFigure", "BuildOther"]),
         "extreme": ("ParamsExtreme", "MixMovesQ", 3, "BothTr", "PageOnly", "First1", ["GONewV", "BuildOther"]),
         "overprint": ("ParamsOver", "OverMoves", 3, "BothTr", "PageOnly", "First1", []),
+        "wide":    ("ParamsWideQ", "WideMovesQ", 3, "BothTr", "PageOnly", "First1", []),
         "nested":  ("ParamsNest", "NestMoves", 5, "BothTr", "PageOnly", "FirstNest", []),
         "degenerate": ("ParamsDegen", "DegenMoves", 3, "BothTr", "PageOnly", "FirstDegen", []),
     },
@@ -64,6 +65,7 @@ FAMILIES = {
         "figures": ("ParamsFig", "FigMoves", 4, "NoTr", "PageAndFigure", "First1", []),
         "extreme": ("ParamsExtreme", "MixMovesT", 3, "BothTr", "PageOnly", "First1", []),
         "overprint": ("ParamsOver", "OverMoves", 4, "BothTr", "PageOnly", "First1", []),
+        "wide":    ("ParamsWide", "WideMoves", 4, "BothTr", "PageOnly", "FirstWide", []),
         "nested":  ("ParamsNestT", "NestMovesT", 5, "BothTr", "PageOnly", "FirstNest", []),
         "degenerate": ("ParamsDegen", "DegenMoves", 4, "BothTr", "PageOnly", "FirstDegen", []),
     },
